@@ -933,6 +933,12 @@ CK_RV SoftHSM::C_GetMechanismInfo(CK_SLOT_ID slotID, CK_MECHANISM_TYPE type, CK_
 		return CKR_SLOT_ID_INVALID;
 	}
 
+	// A mechanism that the configuration removed is not available
+	if (std::find(supportedMechanisms.begin(), supportedMechanisms.end(), type) == supportedMechanisms.end())
+	{
+		return CKR_MECHANISM_INVALID;
+	}
+
 	AsymmetricAlgorithm* rsa = CryptoFactory::i()->getAsymmetricAlgorithm(AsymAlgo::RSA);
 	if (rsa != NULL)
 	{
@@ -3653,6 +3659,9 @@ CK_RV SoftHSM::C_DigestInit(CK_SESSION_HANDLE hSession, CK_MECHANISM_PTR pMechan
 	// Check if we have another operation
 	if (session->getOpType() != SESSION_OP_NONE) return CKR_OPERATION_ACTIVE;
 
+	// Check if the mechanism is enabled in the configuration
+	if (!isMechanismPermitted(NULL, pMechanism)) return CKR_MECHANISM_INVALID;
+
 	// Get the mechanism
 	HashAlgo::Type algo = HashAlgo::Unknown;
 	switch(pMechanism->mechanism) {
@@ -5914,6 +5923,9 @@ CK_RV SoftHSM::C_GenerateKey(CK_SESSION_HANDLE hSession, CK_MECHANISM_PTR pMecha
 	Session* session = (Session*)handleManager->getSession(hSession);
 	if (session == NULL) return CKR_SESSION_HANDLE_INVALID;
 
+	// Check if the mechanism is enabled in the configuration
+	if (!isMechanismPermitted(NULL, pMechanism)) return CKR_MECHANISM_INVALID;
+
 	// Check the mechanism, only accept DSA and DH parameters
 	// and symmetric ciphers
 	CK_OBJECT_CLASS objClass;
@@ -6067,6 +6079,9 @@ CK_RV SoftHSM::C_GenerateKeyPair
 	// Get the session
 	Session* session = (Session*)handleManager->getSession(hSession);
 	if (session == NULL) return CKR_SESSION_HANDLE_INVALID;
+
+	// Check if the mechanism is enabled in the configuration
+	if (!isMechanismPermitted(NULL, pMechanism)) return CKR_MECHANISM_INVALID;
 
 	// Check the mechanism, only accept RSA, DSA, EC and DH key pair generation.
 	CK_KEY_TYPE keyType;
@@ -12921,6 +12936,10 @@ bool SoftHSM::isMechanismPermitted(OSObject* key, CK_MECHANISM_PTR pMechanism)
 	auto it = std::find(mechs.begin(), mechs.end(), pMechanism->mechanism);
 	if (it == mechs.end())
 		return false;
+
+	/* Operations without a key are only restricted by the configuration */
+	if (key == NULL)
+		return true;
 
 	OSAttribute attribute = key->getAttribute(CKA_ALLOWED_MECHANISMS);
 	std::set<CK_MECHANISM_TYPE> allowed = attribute.getMechanismTypeSetValue();
